@@ -545,6 +545,8 @@ def run(program, ctx):
 
     c16.rule_handlers(program, ctx, prop=P, rid="C03.handlers")
     rule_config(program, ctx)
+    # what is stored / served must hash to the accepted id: the shared JSON encoder does not re-order or substitute tag items
+    c04.rule_encoder(program, ctx, prop=P, rid="C03.encoder")
     ctx.not_decided += [
         "correctness of BIP-340 verification, SHA-256 and canonical serialisation inside aionostr/coincurve",
         "NIP-26 delegation conditions (only that a failed delegation signature makes verify() falsy is read)",
